@@ -590,6 +590,17 @@ class Interp:
             a, kw = evalargs(s[4])
             self.pending_caller = None
             self.w(self.tostr(self.call(fn, a, kw)))
+        elif k == "get_ns2":
+            v = self.lookup(s[1], env)
+            if not isinstance(v, View):
+                raise DontCare("get_namespace on a non-template namespace")
+            self.hops += 2
+            # each get_namespace resolves against the template of the namespace it is called on
+            ns1 = Chain(self, resolve(s[2], v.path), v.chain.ctx).view(0)
+            ns2 = Chain(self, resolve(s[3], ns1.path), v.chain.ctx).view(0)
+            fn = ns2.member(s[4])
+            self.pending_caller = None
+            self.w(self.tostr(self.call(fn, (), {})))
         elif k == "get_tpl":
             v = self.lookup(s[1], env)
             if not isinstance(v, View):
